@@ -60,11 +60,10 @@ Qed.
 (* reading the current chunk through currApp *)
 Lemma cur_read m a want local :
   Rm m a -> m_closed m = false -> 0 < want ->
-  h_tail (m_app m) (cur_file m) && (local <? h_fo (m_app m)) && (h_fo (m_app m) <? local + want) = false ->
   h_readat (m_app m) (cur_file m) want local = spec_read (drop (m_cur m * m_fs m) (l_data a)) want local.
 Proof.
-  intros [D Fl] MC WP NRK. unfold h_readat. rewrite (rf_acl _ _ Fl), MC.
-  rewrite (h_readat_spec _ _ _ _ (rd_wf _ _ D) WP NRK). rewrite (rd_data _ _ D). reflexivity.
+  intros [D Fl] MC WP. unfold h_readat. rewrite (rf_acl _ _ Fl), MC.
+  rewrite (h_readat_spec _ _ _ _ (rd_wf _ _ D) WP). rewrite (rd_data _ _ D). reflexivity.
 Qed.
 
 (* arithmetic of chunk addresses *)
@@ -118,37 +117,29 @@ Proof. intros L. unfold spec_read. replace (len D <? off) with true by (symmetry
 
 (* the risk condition of a ReadAt, without the closed flag *)
 Definition nrb (m : mapp) (n off : N) : bool :=
-  m_dirty m && (m_flushed m <? off + n) && ((off <? m_flushed m) || (m_offset m <? off + n)).
+  m_stale m && (m_end m <? off + n) && ((m_offset m =? m_end m) || (m_end m <=? off)).
 
 Lemma nrb_core m m1 n off : same_core m m1 -> nrb m1 n off = nrb m n off.
 Proof.
-  intros (A1 & A2 & A3 & A4 & _). unfold nrb, m_dirty, m_flushed, m_offset, cur_file, m_file.
+  intros (A1 & A2 & A3 & A4 & _). unfold nrb, m_stale, m_end, m_offset.
   rewrite A1, A2, A3, A4. reflexivity.
 Qed.
 
-Lemma nrb_single m n off p want :
-  nrb m n off = false -> off <= p -> p + want = off + n ->
-  h_tail (m_app m) (cur_file m) && (p - m_cur m * m_fs m <? h_fo (m_app m)) &&
-    (h_fo (m_app m) <? p - m_cur m * m_fs m + want) = false \/ p < m_cur m * m_fs m.
+Lemma not_stale m : m_stale m = false -> forall i F, In (i, F) (m_disk m) -> i <= m_cur m.
 Proof.
-  intros NR L E. destruct (N.lt_ge_cases p (m_cur m * m_fs m)) as [LT|GE]; [right; exact LT|left].
-  destruct (h_tail (m_app m) (cur_file m)) eqn:T; [|reflexivity]. cbn [andb].
-  unfold nrb, m_dirty in NR. rewrite T, orb_true_r in NR. cbn [andb] in NR. unfold m_flushed in NR.
-  destruct (N.ltb_spec (p - m_cur m * m_fs m) (h_fo (m_app m))) as [A|A]; [|reflexivity].
-  destruct (N.ltb_spec (h_fo (m_app m)) (p - m_cur m * m_fs m + want)) as [B|B]; [|reflexivity].
-  exfalso.
-  replace (m_cur m * m_fs m + h_fo (m_app m) <? off + n) with true in NR by (symmetry; apply N.ltb_lt; lia).
-  replace (off <? m_cur m * m_fs m + h_fo (m_app m)) with true in NR by (symmetry; apply N.ltb_lt; lia).
-  discriminate NR.
+  unfold m_stale. intros H i F I. pose proof (existsb_false _ _ H (i, F) I) as Q. cbn in Q.
+  apply N.ltb_ge in Q. exact Q.
 Qed.
 
-Lemma nrb_beyond m n off p :
-  nrb m n off = false -> m_flushed m <= m_offset m -> m_offset m <= p -> p < off + n -> m_dirty m = false.
+(* a read that reaches a chunk beyond the current one is risky unless there is no such file *)
+Lemma nrb_beyond m n off p r :
+  nrb m n off = false -> p = off + r -> m_end m <= p -> p < off + n ->
+  (r = 0 \/ p <= m_offset m) -> m_offset m <= m_end m -> m_stale m = false.
 Proof.
-  intros NR FO L1 L2. unfold nrb in NR. destruct (m_dirty m); [|reflexivity]. cbn [andb] in NR. exfalso.
-  replace (m_flushed m <? off + n) with true in NR by (symmetry; apply N.ltb_lt; lia).
-  replace (m_offset m <? off + n) with true in NR by (symmetry; apply N.ltb_lt; lia).
-  rewrite orb_true_r in NR. discriminate NR.
+  intros NR PE L1 L2 INV OE. unfold nrb in NR. destruct (m_stale m); [|reflexivity]. cbn [andb] in NR. exfalso.
+  replace (m_end m <? off + n) with true in NR by (symmetry; apply N.ltb_lt; lia). cbn [andb] in NR.
+  apply orb_false_elim in NR as [N1 N2]. apply N.eqb_neq in N1. apply N.leb_gt in N2.
+  destruct INV as [Z|Z]; lia.
 Qed.
 
 Lemma m_read_loop_spec fuel : forall m a n off acc,
@@ -222,9 +213,7 @@ Proof.
       rewrite DIV in *. rewrite (HCUR eq_refl).
       assert (MF : m_file m1 (m_cur m) = cur_file m) by (unfold m_file, cur_file, m_file; rewrite SC1; reflexivity).
       rewrite MF, MOD.
-      assert (PO : off <= p) by (unfold p; lia).
-      destruct (nrb_single m n off p want NR PO PW) as [NRS|BAD]; [|exfalso; lia].
-      rewrite (cur_read m a want _ Rma MC WP NRS). fold D.
+      rewrite (cur_read m a want _ Rma MC WP). fold D.
       set (C := drop (m_cur m * m_fs m) D).
       assert (LC : len C = len D - m_cur m * m_fs m) by (unfold C; apply len_drop).
       unfold spec_read.
@@ -251,15 +240,14 @@ Proof.
            apply NEXT; rewrite ?LD; auto. unfold k. lia.
     + (* a chunk after the current one: there is none unless stale files are around *)
       pose proof (chunk_ge p (m_fs m) (m_cur m) FS NEW) as IGT.
-      assert (FO : m_flushed m <= m_offset m).
-      { unfold m_flushed, m_offset, h_offset. lia. }
-      assert (SP : m_offset m <= p) by (rewrite <- SZ; clear - NEW LN SZ OF; unfold m_offset in *; lia).
+      assert (OE : m_offset m <= m_end m) by (unfold m_offset, m_end; lia).
       assert (PL : p < off + n) by (rewrite <- PW; lia).
-      pose proof (nrb_beyond m n off p NR FO SP PL) as ND.
-      destruct (not_dirty _ ND) as [MAXI _].
+      assert (IV : r = 0 \/ p <= m_offset m) by (rewrite <- SZ; unfold p; destruct INV; [left|right]; auto).
+      pose proof (nrb_beyond m n off p r NR eq_refl NEW PL IV OE) as ND.
+      pose proof (not_stale _ ND) as MAXI.
+      assert (SP : len D <= p) by (rewrite SZ; unfold m_offset; nia).
       rewrite (HNEW IGT MAXI).
       exists m1. splits; auto. f_equal.
-      rewrite <- SZ in SP.
       destruct (N.lt_ge_cases (len D) off) as [BEY|INS].
       * assert (R0 : r = 0) by (destruct INV as [Z|Z]; [exact Z|exfalso; lia]).
         assert (AE : acc = []) by (apply len_0_nil; exact R0). rewrite AE. apply spec_read_beyond. exact BEY.
